@@ -208,10 +208,23 @@ def unit_handler(handler, notified):
                 marker = z3.Contains(z3.String('process_output'), mk_str('Opening Control listener'))
                 attempted0 = z3.Bool('attempted0')
                 start = z3.And(z3.Not(attempted0), marker)
-                okc = len(connects) == 1 and len(chained) == 2 and chained[0][1] == 'addCallback' and chained[1][1] == 'addErrback' \
-                    and isinstance(chained[0][2][0], VFunc) and chained[0][2][0].qualname.endswith('_tor_connected') \
-                    and isinstance(chained[1][2][0], VFunc) and chained[1][2][0].qualname.endswith('_tor_connection_failed')
-                posts.append(('control_connection_attempted_once_when_the_listener_is_announced', z3.If(start, B(okc), B(len(connects) == 0 and len(chained) == 0))))
+                okc = len(connects) == 1
+                if okc and chained:
+                    # the outcome of the connection attempt is routed by running what was registered on its Deferred
+                    from pyvc import chain as CH
+                    d0 = chained[0][0]
+                    entries = CH.entries_of(chained, d0)
+                    for fails in (False, True):
+                        q = p.fork()
+                        q.heap[('g', 'summarise_steps')] = True
+                        val = VOpaque('failure', 41) if fails else VOpaque('proto', 7903)
+                        for q2, v, bad in CH.run(ex, q, entries, val, failed=fails, models=ctx.models):
+                            steps = ctx.models.glog(q2, 'steps')
+                            want = '_tor_connection_failed' if fails else '_tor_connected'
+                            ctx.oblige('post.connection_%s_reaches_%s' % ('failure' if fails else 'result', want), q2,
+                                       B(len(steps) == 1 and steps[0][0] == want and steps[0][1] is val),
+                                       clause='success only after Tor reported 100% bootstrap over the authenticated control connection')
+                posts.append(('control_connection_attempted_once_when_the_listener_is_announced', z3.If(start, B(okc and len(chained) >= 1), B(len(connects) == 0 and len(chained) == 0))))
                 att = p.heap[('f', tpp.oid, 'attempted_connect')]
                 posts.append(('attempt_remembered', att.t == z3.Or(attempted0, marker) if isinstance(att, VBool) else B(False)))
                 # process output never produces an outcome: success needs the 100% event on the authenticated control connection
